@@ -67,7 +67,11 @@ def multitarget_rule(build_inputs, buildfile, targets, deps=None,
     if len(targets) > 1:
         first = targets[0]
         primary = _get_path(first).addext('.stamp')
-        buildfile.rule(target=targets, deps=[primary])
+        # Give this rule a (no-op) recipe so that Make re-checks the targets'
+        # timestamps after the stamp's recipe has rewritten them; without one,
+        # Make keeps using the timestamps it saw before, and steps depending
+        # on these files are only rebuilt on the *next* run.
+        buildfile.rule(target=targets, deps=[primary], recipe=[Silent([':'])])
         recipe = listify(recipe) + [Silent([ 'touch', qvar('@') ])]
         if clean_stamp:
             build_inputs.add_target(file_types.File(primary))
